@@ -296,6 +296,12 @@ def check_word_count(ctx, F, tag, rule="C05.R3.word-count-follows-length"):
 def check_config(ctx, F, tag):
     check_tail_invariant(ctx, F, tag)
     check_grow_fill(ctx, F, tag)
+    from core import Relabel
+    if not isinstance(ctx, Relabel) and tag in ("", "@portable"):
+        # (borrowed) every integer store goes through write_int, whose keep-masks are table lookups: one wrong entry of LOW_SET /
+        # HIGH_SET clears or keeps a neighbour's bit for one (offset, width) class only (C17.R1)
+        import c17
+        c17.check_config(Relabel(ctx, {"C17.R1.table": ("C05.R2.mask-tables", lambda k: "LOW_SET" in k or "HIGH_SET" in k)}), F, tag, "native" if tag == "" else "portable")
     # construction with a fill value / capacity / width: exactly the widths 1..=64 (shared with C09.R2)
     import c09
     c09.check_width_predicate(ctx, F, tag, "C05.R5", only=("int_vector::IntVector::new", "int_vector::IntVector::with_len", "int_vector::IntVector::with_capacity"))
